@@ -1,7 +1,7 @@
 BH = "crates/tower-resilience-bulkhead/src/"
 RL = "crates/tower-resilience-ratelimiter/src/"
 HG = "crates/tower-resilience-hedge/src/"
-MUT = [("sub", "R16-mut-self", r"\bself\b", "self_", None), ("inject", None, "start", "let mut self_ = self;")]
+MUT = [("sub", "R16-mut-self", r"\bself\b", "self_", -1), ("inject", None, "start", "let mut self_ = self;")]
 INTO = ("sub", "R6-into", r"\bname\.into\(\)", "vx_wrap()", 1)
 LISTEN = ("wrapcalls", "R6-closure-wrap", r"FnListener::new", "vx_wrap::<Listener>()", 1)
 def setter(file, *extra):
